@@ -2,6 +2,7 @@ package main
 
 import (
 	"go/token"
+	"go/types"
 	"strings"
 
 	"golang.org/x/tools/go/ssa"
@@ -107,6 +108,110 @@ func runCountFactor(rc *RuleCtx) {
 				rc.verdict(good, fn, cal.Name()+"(count × width)", ins.Pos(), map[bool]string{
 					true:  "every term of the byte count carries the element count",
 					false: "the byte count mixes terms with and without the element count (a sum like count*k + v instead of count*(k+v)): right for one element only"}[good], true)
+			}
+		}
+	}
+}
+
+// COUNTSIGN: the same advances, looked at for the sign of the count.
+func init() {
+	register(&Rule{
+		Name:     "COUNTSIGN",
+		Doc:      "an element count decoded in place from the input (big-endian Uint32 converted to a signed integer) is tested for being negative BEFORE it is multiplied into a cursor advance: every skipn / next whose byte count has such a count as a factor is control-dependent on the `count < 0` test (false edge) of that very value. skipn(n) only checks n against the bytes left, which a negative n passes: the cursor moves backwards (count -1: the same list is skipped forever; count -2^31: the cursor goes negative and the next slice expression panics)",
+		Configs:  "NP",
+		Floor:    map[string]int{"N": 3, "P": 3},
+		Controls: 1,
+		Run:      runCountSign,
+	})
+}
+
+func runCountSign(rc *RuleCtx) {
+	for _, fn := range rc.W.Funcs {
+		if fn.Blocks == nil {
+			continue
+		}
+		for _, b := range fn.Blocks {
+			for _, ins := range b.Instrs {
+				c, ok := ins.(ssa.CallInstruction)
+				if !ok {
+					continue
+				}
+				cal := c.Common().StaticCallee()
+				if cal == nil || !(cal.Name() == "skipn" || cal.Name() == "next" || cal.Name() == "next_nopanic" || strings.HasPrefix(cal.Name(), "zzControlSkipN")) {
+					continue
+				}
+				args := c.Common().Args
+				if len(args) < 2 {
+					continue
+				}
+				for _, t := range sumOfProducts(args[len(args)-1], 0) {
+					if len(t) < 2 {
+						continue
+					}
+					for _, f := range t {
+						// the chain of conversions from the factor down to the decoding call
+						var chain []ssa.Value
+						v := f
+						decoded := false
+						for i := 0; i < 5; i++ {
+							chain = append(chain, v)
+							cv, ok := v.(*ssa.Convert)
+							if !ok {
+								if call, ok := v.(*ssa.Call); ok {
+									if k := call.Call.StaticCallee(); k != nil && k.Pkg != nil && k.Pkg.Pkg.Path() == "encoding/binary" && k.Name() == "Uint32" {
+										decoded = true
+									}
+								}
+								break
+							}
+							v = cv.X
+						}
+						if !decoded {
+							continue
+						}
+						rc.Examined++
+						good := false
+						for _, cd := range controllingIfs(b) {
+							k, neg := condKey(cd.cond)
+							bo, ok := k.(*ssa.BinOp)
+							if !ok {
+								continue
+							}
+							zero, isC := constInt(bo.Y)
+							if !isC || zero != 0 {
+								continue
+							}
+							onChain := false
+							x := bo.X
+							for {
+								cvx, ok := x.(*ssa.Convert)
+								if !ok {
+									break
+								}
+								x = cvx.X
+							}
+							for _, cv := range chain {
+								if bo.X == cv || x == cv {
+									onChain = true
+								}
+							}
+							// the test has to look at a SIGNED view of the count
+							if bt, ok := bo.X.Type().Underlying().(*types.Basic); !ok || bt.Info()&types.IsUnsigned != 0 {
+								onChain = false
+							}
+							if !onChain {
+								continue
+							}
+							truth := cd.val != neg
+							if (bo.Op == token.LSS && !truth) || (bo.Op == token.GEQ && truth) {
+								good = true
+							}
+						}
+						rc.verdict(good, fn, cal.Name()+"(count × width) sign", ins.Pos(), map[bool]string{
+							true:  "the advance runs only after the count was found non-negative",
+							false: "the count decoded from the input is multiplied into the advance without a preceding `count < 0` test: a negative count moves the cursor backwards (endless loop) or below zero (panic)"}[good], true)
+					}
+				}
 			}
 		}
 	}
